@@ -8,7 +8,7 @@ CONSTANTS
   MaxNodes = 1
   MaxStack = 1
   BugOptionalDropsNone = FALSE
-  FixedStar = FALSE
-  FixedFinalInString = FALSE
-  FixedNestedLiteral = FALSE
+  FixedStar = TRUE
+  FixedFinalInString = TRUE
+  FixedNestedLiteral = TRUE
 CHECK_DEADLOCK FALSE
